@@ -17,6 +17,7 @@
                           storage read/written, connection to another node requested, RPC sent to it
      Data(a)              a in {hdr,chunk,result}: object data sent to the client
      Reply(code,grpc)     final NeoFS status code / transport error of the call
+     Flip                 the harness switched the node to maintenance at this point of the call
 
    Strict = TRUE : the actions are guarded by the implementation's order (the model that TLC explores
                    exhaustively over all classes and all admissible event orders; the property invariants
@@ -44,7 +45,8 @@ SigAllOK(c)  == c.sig \in {"ok", "exempt"}                            \* every m
 HasTok(c)    == c.tok # "none"
 TokOK(c)     == c.tok \in {"none", "ok", "bearer_ok"}
 \* request passes every request-time check: only such a request may cause effects
-Passes(mm, c)   == /\ mm \notin Legacy /\ SigAllOK(c) /\ ~c.maint /\ c.body = "ok" /\ TokOK(c) /\ c.basic
+\* (maintenance is handled separately: it may be switched on in the middle of a PUT stream, see Flip)
+Passes(mm, c)   == /\ mm \notin Legacy /\ SigAllOK(c) /\ c.body = "ok" /\ TokOK(c) /\ c.basic
                    /\ c.ereq # "deny"
 NeedsHdr(mm, c) == mm \in HdrOps /\ c.ereq = "nm"
 \* ... and the header-time check too: only such a request may receive object data / an OK status
@@ -60,15 +62,18 @@ VARIABLES pc,        \* "idle" | "run" | "done"
           failed,    \* a check was observed with a failing result
           inE,       \* "none" | "req" | "hdr": inside an eACL evaluation
           hdr,       \* "none" | "ok" | "deny": result of the latest header-time evaluation
+          mnt,       \* the node is under maintenance NOW (cls.maint at Recv; Flip switches it on in mid-stream)
+          touchedM,  \* an ACL-component event / effect / object data happened while the node was under maintenance
           \* monitors (property side)
           eff, data, lookup, aclEv,     \* an effect / object data to client / storage read inside eACL / any ACL-component event happened
           effOK, dataOK, lookupOK,      \* ... and each of them happened only after the checks it needs
           code, grpc                    \* final reply
-vars == <<pc, m, cls, passed, failed, inE, hdr, eff, data, lookup, aclEv, effOK, dataOK, lookupOK, code, grpc>>
+vars == <<pc, m, cls, passed, failed, inE, hdr, mnt, touchedM, eff, data, lookup, aclEv, effOK, dataOK, lookupOK, code, grpc>>
 
 NoClass == [sig |-> "ok", maint |-> FALSE, body |-> "ok", tok |-> "none", basic |-> TRUE, ereq |-> "allow", ehdr |-> "na"]
 
 Init == /\ pc = "idle" /\ m = "Get" /\ cls = NoClass /\ passed = {} /\ failed = FALSE /\ inE = "none" /\ hdr = "none"
+        /\ mnt = FALSE /\ touchedM = FALSE
         /\ eff = FALSE /\ data = FALSE /\ lookup = FALSE /\ aclEv = FALSE
         /\ effOK = TRUE /\ dataOK = TRUE /\ lookupOK = TRUE /\ code = 0 /\ grpc = ""
 
@@ -86,49 +91,50 @@ Recv(e) ==
   /\ pc \in {"idle", "done"}
   /\ pc' = "run" /\ m' = e.m /\ cls' = e.cls
   /\ passed' = {} /\ failed' = FALSE /\ inE' = "none" /\ hdr' = "none"
+  /\ mnt' = e.cls.maint /\ touchedM' = FALSE
   /\ eff' = FALSE /\ data' = FALSE /\ lookup' = FALSE /\ aclEv' = FALSE
   /\ effOK' = TRUE /\ dataOK' = TRUE /\ lookupOK' = TRUE /\ code' = 0 /\ grpc' = ""
 
 \* s.fsChain.LocalNodeUnderMaintenance(): consulted once per request message
 Maint(e) ==
   /\ pc = "run" /\ inE = "none"
-  /\ G(m \notin Legacy /\ SigInitOK(cls) /\ ~failed /\ e.ok = cls.maint)
+  /\ G(m \notin Legacy /\ SigInitOK(cls) /\ ~failed /\ e.ok = mnt)
   /\ Pass("maint", ~e.ok)
-  /\ UNCHANGED <<pc, m, cls, inE, hdr, eff, data, lookup, aclEv, effOK, dataOK, lookupOK, code, grpc>>
+  /\ UNCHANGED <<pc, m, cls, inE, hdr, mnt, touchedM, eff, data, lookup, aclEv, effOK, dataOK, lookupOK, code, grpc>>
 
 \* handleRequestMetaHeader: Verify{Session,SessionV1,Bearer}TokenMessage
 Tok(e) ==
   /\ pc = "run" /\ inE = "none"
-  /\ G("maint" \in passed /\ ~failed /\ HasTok(cls) /\ e.ok = TokOK(cls))
-  /\ Pass("tok", e.ok) /\ aclEv' = TRUE
-  /\ UNCHANGED <<pc, m, cls, inE, hdr, eff, data, lookup, effOK, dataOK, lookupOK, code, grpc>>
+  /\ G("maint" \in passed /\ ~failed /\ HasTok(cls) /\ e.ok = TokOK(cls) /\ ~mnt)
+  /\ Pass("tok", e.ok) /\ aclEv' = TRUE /\ touchedM' = (touchedM \/ mnt)
+  /\ UNCHANGED <<pc, m, cls, inE, hdr, mnt, eff, data, lookup, effOK, dataOK, lookupOK, code, grpc>>
 
 \* reqInfoProc.<Op>RequestToInfo
 Info(e) ==
   /\ pc = "run" /\ inE = "none"
-  /\ G("maint" \in passed /\ ~failed /\ (HasTok(cls) => "tok" \in passed))
-  /\ Pass("info", e.ok) /\ aclEv' = TRUE
-  /\ UNCHANGED <<pc, m, cls, inE, hdr, eff, data, lookup, effOK, dataOK, lookupOK, code, grpc>>
+  /\ G("maint" \in passed /\ ~failed /\ (HasTok(cls) => "tok" \in passed) /\ ~mnt)
+  /\ Pass("info", e.ok) /\ aclEv' = TRUE /\ touchedM' = (touchedM \/ mnt)
+  /\ UNCHANGED <<pc, m, cls, inE, hdr, mnt, eff, data, lookup, effOK, dataOK, lookupOK, code, grpc>>
 
 Basic(e) ==
   /\ pc = "run" /\ inE = "none"
-  /\ G("info" \in passed /\ ~failed /\ e.ok = cls.basic)
-  /\ Pass("basic", e.ok) /\ aclEv' = TRUE
-  /\ UNCHANGED <<pc, m, cls, inE, hdr, eff, data, lookup, effOK, dataOK, lookupOK, code, grpc>>
+  /\ G("info" \in passed /\ ~failed /\ e.ok = cls.basic /\ ~mnt)
+  /\ Pass("basic", e.ok) /\ aclEv' = TRUE /\ touchedM' = (touchedM \/ mnt)
+  /\ UNCHANGED <<pc, m, cls, inE, hdr, mnt, eff, data, lookup, effOK, dataOK, lookupOK, code, grpc>>
 
 Sticky(e) ==
   /\ pc = "run" /\ inE = "none"
-  /\ G(m = "Put" /\ "basic" \in passed /\ ~failed)
-  /\ Pass("sticky", e.ok) /\ aclEv' = TRUE
-  /\ UNCHANGED <<pc, m, cls, inE, hdr, eff, data, lookup, effOK, dataOK, lookupOK, code, grpc>>
+  /\ G(m = "Put" /\ "basic" \in passed /\ ~failed /\ ~mnt)
+  /\ Pass("sticky", e.ok) /\ aclEv' = TRUE /\ touchedM' = (touchedM \/ mnt)
+  /\ UNCHANGED <<pc, m, cls, inE, hdr, mnt, eff, data, lookup, effOK, dataOK, lookupOK, code, grpc>>
 
 \* aclChecker.CheckEACL on the request (a = "req") or on the object's header (a = "hdr")
 EACLBegin(e) ==
   /\ pc = "run" /\ inE = "none"
-  /\ G(IF e.a = "req" THEN PreEACL /\ "eacl" \notin passed
-                      ELSE NeedsHdr(m, cls) /\ ChecksDone /\ eff)
-  /\ inE' = e.a /\ aclEv' = TRUE
-  /\ UNCHANGED <<pc, m, cls, passed, failed, hdr, eff, data, lookup, effOK, dataOK, lookupOK, code, grpc>>
+  /\ G(~mnt /\ IF e.a = "req" THEN PreEACL /\ "eacl" \notin passed
+                              ELSE NeedsHdr(m, cls) /\ ChecksDone /\ eff)
+  /\ inE' = e.a /\ aclEv' = TRUE /\ touchedM' = (touchedM \/ mnt)
+  /\ UNCHANGED <<pc, m, cls, passed, failed, hdr, mnt, eff, data, lookup, effOK, dataOK, lookupOK, code, grpc>>
 
 EACLEnd(e) ==
   /\ pc = "run" /\ inE = e.a
@@ -137,7 +143,7 @@ EACLEnd(e) ==
   /\ IF e.a = "req"
        THEN Pass("eacl", e.res # "deny") /\ hdr' = hdr
        ELSE hdr' = (IF e.res = "deny" THEN "deny" ELSE "ok") /\ UNCHANGED <<passed, failed>>
-  /\ UNCHANGED <<pc, m, cls, eff, data, lookup, aclEv, effOK, dataOK, lookupOK, code, grpc>>
+  /\ UNCHANGED <<pc, m, cls, mnt, touchedM, eff, data, lookup, aclEv, effOK, dataOK, lookupOK, code, grpc>>
 
 \* internal handler entered / local storage touched / another node contacted
 Eff(e) ==
@@ -147,30 +153,38 @@ Eff(e) ==
             /\ G(PreEACL)
             /\ lookup' = TRUE /\ lookupOK' = (lookupOK /\ PreEACL)
             /\ UNCHANGED <<eff, effOK>>
-       ELSE /\ G(inE = "none" /\ Passes(m, cls) /\ ChecksDone)
+       ELSE /\ G(inE = "none" /\ Passes(m, cls) /\ ChecksDone /\ ~mnt)
             /\ eff' = TRUE /\ effOK' = (effOK /\ ChecksDone /\ inE = "none")
             /\ UNCHANGED <<lookup, lookupOK>>
-  /\ UNCHANGED <<pc, m, cls, passed, failed, inE, hdr, data, aclEv, dataOK, code, grpc>>
+  /\ touchedM' = (touchedM \/ mnt)
+  /\ UNCHANGED <<pc, m, cls, passed, failed, inE, hdr, mnt, data, aclEv, dataOK, code, grpc>>
 
 DataGuard == ChecksDone /\ inE = "none" /\ (NeedsHdr(m, cls) => hdr = "ok")
 
 \* object header / payload bytes / search result sent to the client
 Data(e) ==
   /\ pc = "run"
-  /\ G(PassesAll(m, cls) /\ DataGuard)
-  /\ data' = TRUE /\ dataOK' = (dataOK /\ DataGuard)
-  /\ UNCHANGED <<pc, m, cls, passed, failed, inE, hdr, eff, lookup, aclEv, effOK, lookupOK, code, grpc>>
+  /\ G(PassesAll(m, cls) /\ DataGuard /\ ~mnt)
+  /\ data' = TRUE /\ dataOK' = (dataOK /\ DataGuard) /\ touchedM' = (touchedM \/ mnt)
+  /\ UNCHANGED <<pc, m, cls, passed, failed, inE, hdr, mnt, eff, lookup, aclEv, effOK, lookupOK, code, grpc>>
 
 Reply(e) ==
   /\ pc = "run"
   /\ G(/\ inE = "none"
-       /\ IsOK(e.code, e.grpc) => PassesAll(m, cls) /\ ChecksDone /\ (NeedsHdr(m, cls) => hdr = "ok")
-       /\ (cls.maint /\ SigInitOK(cls) /\ m \in ClientOps) => (e.code = MaintCode /\ e.grpc = "")
+       /\ IsOK(e.code, e.grpc) => PassesAll(m, cls) /\ ChecksDone /\ (NeedsHdr(m, cls) => hdr = "ok") /\ ~mnt
+       /\ (mnt /\ SigInitOK(cls) /\ m \in ClientOps) => (e.code = MaintCode /\ e.grpc = "")
        /\ m \in Legacy => e.grpc # "")
   /\ pc' = "done" /\ code' = e.code /\ grpc' = e.grpc
-  /\ UNCHANGED <<m, cls, passed, failed, inE, hdr, eff, data, lookup, aclEv, effOK, dataOK, lookupOK>>
+  /\ UNCHANGED <<m, cls, passed, failed, inE, hdr, mnt, touchedM, eff, data, lookup, aclEv, effOK, dataOK, lookupOK>>
+
+\* the node is switched to maintenance while the call is in progress (between two messages of a PUT stream)
+Flip(e) ==
+  /\ pc = "run" /\ inE = "none" /\ ~mnt
+  /\ mnt' = TRUE
+  /\ UNCHANGED <<pc, m, cls, passed, failed, inE, hdr, touchedM, eff, data, lookup, aclEv, effOK, dataOK, lookupOK, code, grpc>>
 
 Step(e) == CASE e.ev = "Recv"      -> Recv(e)
+             [] e.ev = "Flip"      -> Flip(e)
              [] e.ev = "Maint"     -> Maint(e)
              [] e.ev = "Tok"       -> Tok(e)
              [] e.ev = "Info"      -> Info(e)
@@ -195,6 +209,7 @@ RunEvents ==   [ev : {"Maint", "Tok", "Info", "Basic", "Sticky"}, ok : BOOLEAN]
           \cup [ev : {"Eff"}, a : {"handler", "read", "write", "conn", "remote"}]
           \cup [ev : {"Data"}, a : {"hdr", "chunk", "result"}]
           \cup [ev : {"Reply"}, code : Codes, grpc : {"", "Unimplemented"}]
+          \cup {[ev |-> "Flip"]}
 
 \* one call per behaviour is enough for the exhaustive run (a second Recv resets every variable)
 Events == RecvEvents \cup RunEvents
@@ -214,12 +229,15 @@ C29_ChecksPrecedeEffects == effOK /\ lookupOK
 C29_HeaderEACLBeforeData == dataOK /\ (data => PassesAll(m, cls))
 \* C29: a failing request gets an error status
 C29_ErrorStatusForFailingRequest == (pc = "done" /\ ~PassesAll(m, cls)) => ~IsOK(code, grpc)
+\* (a request refused only because of maintenance is judged by C45)
 \* C45: a valid client operation on a node in maintenance is refused with the maintenance status and touches
-\*      neither the ACL components, nor the local storage, nor other nodes
+\*      neither the ACL components, nor the local storage, nor other nodes - from the moment the node is under
+\*      maintenance (the whole call if it was so at Recv; the rest of the stream if it was switched on in between)
 C45_MaintenanceRefusal ==
-  (pc # "idle" /\ cls.maint /\ SigInitOK(cls) /\ m \in ClientOps) =>
-     /\ ~eff /\ ~data /\ ~lookup /\ ~aclEv
-     /\ pc = "done" => (code = MaintCode /\ grpc = "")
+  (pc # "idle" /\ SigInitOK(cls) /\ m \in ClientOps) =>
+     /\ ~touchedM
+     /\ cls.maint => (~eff /\ ~data /\ ~lookup /\ ~aclEv)
+     /\ (pc = "done" /\ mnt) => (code = MaintCode /\ grpc = "")
 
 TypeOK == /\ pc \in {"idle", "run", "done"} /\ m \in Methods /\ passed \subseteq {"maint", "tok", "info", "basic", "sticky", "eacl"}
           /\ inE \in {"none", "req", "hdr"} /\ hdr \in {"none", "ok", "deny"}
